@@ -107,10 +107,18 @@ LayoutDev == (IF DevNLBeforeLiteral THEN {"nl_before_literal"} ELSE {})
 
 Has(c) == \E k \in DOMAIN lit : lit[k] = c
 Pair(a, b) == \E k \in 1..(Len(lit) - 1) : lit[k] = a /\ lit[k + 1] = b
-WordEnd == {"letter", "digit", "kw", "colon_word", "punct", "nonascii"}
-\* (semicolons, comment-line markers --, #, double quotes and doubled quotes inside a literal are copied verbatim by the pinned tree:
-\*  no deviation is recorded for them, so any mismatch on such a literal is a violation)
-LitDev == (IF Has("comma") THEN {"lit_comma"} ELSE {}) \cup (IF Has("lpar") \/ Has("rpar") THEN {"lit_paren"} ELSE {})
+\* Calibrated on the pinned tree over every class string of length <= 3 (and probes of length 4): a literal is rewritten exactly when
+\*  - it contains an opening parenthesis, a non-ASCII character, a backslash, a tab, a line break or a block-comment marker, or
+\*  - a word character is directly followed by `=`, or
+\*  - a comma or a closing parenthesis is followed - after a possibly empty run of word characters - by something that is neither a
+\*    word character nor a doubled quote (the look-ahead of pre_process_data protects `sep word* '` only).
+\* Semicolons, --, #, double quotes, doubled quotes, keyword-shaped and statement-level words by themselves are copied verbatim.
+WordCls == {"letter", "digit", "kw"}
+WordEnd == {"letter", "digit", "kw", "colon_word", "punct", "stmtword"}
+DevSep == \E k \in DOMAIN lit : /\ lit[k] \in {"comma", "rpar"}
+                                 /\ \E j \in (k + 1)..Len(lit) : /\ lit[j] \notin WordCls \cup {"quote2"}
+                                                                  /\ \A m \in (k + 1)..(j - 1) : lit[m] \in WordCls
+LitDev == (IF DevSep THEN {"lit_sep"} ELSE {}) \cup (IF Has("lpar") THEN {"lit_lpar"} ELSE {})
           \cup (IF \E w \in WordEnd : Pair(w, "eq") THEN {"lit_word_eq"} ELSE {}) \cup (IF Has("nonascii") THEN {"lit_nonascii"} ELSE {})
           \cup (IF Has("bslash") THEN {"lit_bslash"} ELSE {}) \cup (IF Has("tab") THEN {"lit_tab"} ELSE {})
           \cup (IF Has("nl") THEN {"lit_nl"} ELSE {}) \cup (IF Has("copen") \/ Has("cclose") THEN {"lit_comment_marker"} ELSE {})
